@@ -5,6 +5,7 @@ CRATE = "e_tensor"
 DRIVER = "drv_tensor"
 DRIVER_MODULE = "Driver.Tensor"
 PROPS = "RlibModel.Props.C19"
+PROPS_SRC = "RlibModel.Props.C19Src"     # second tie: `src_*` theorems about the definitions regenerated from the source text
 PROFILES = ["release"]
 SHRINK_SEP = ";"
 RULE = ("cases: every shape of rank 0..4 with extents 1..5 (rank 4: extents <= 4 in the quick tier): every valid index and every index out of range in exactly one dimension with the other coordinates "
@@ -61,3 +62,51 @@ def nontrivial(case, rec):
         return n > 1 or (op == "ctor" and len(dims) > 0)
     except (ValueError, IndexError):
         return True
+
+
+# ---- second tie: constructors, get_index, dim(s), Index/IndexMut, == regenerated from the source text on every run (tools/rs2lean_typed.py) ----
+TRANSLATED = ["from_vec", "from_slice", "new", "get_index", "dims", "dim", "Index::index", "IndexMut::index_mut", "PartialEq::eq"]
+NOT_TRANSLATED = ["Tensor::read (rlib_io Reader)", "iter / iter_mut / into_iter (std iterator types)", "Writable::write and Debug::fmt (odometer over `idx.iter().zip(..).rposition(closure)`, writer calls)",
+                  "#[derive(Clone)] (taken at face value: clone = the same shape and elements; covered by the differential histories)"]
+ASSUMPTIONS.append(
+    "second tie: fromVecU/fromSliceU/newU/getIndexU/dim/index/eq of the hand-written model are proved equal (theorems src_*_eq_model, through the embedding "
+    "List Nat -> Array Int of shapes and indices; data is an Array over an abstract element type) to the definitions that tools/rs2lean_typed.py regenerates from the text of "
+    "rlib/tensor/src/lib.rs on every run (Generated/TensorSrc.lean: [usize; D] = Array Int with checked indexing, contains/product = SrcVec.contains/product with checked "
+    "usize multiplications, the `for i in (0..D).rev()` loop on fuel with its three usize operations checked); hypotheses: shape and index lists of length D (the Rust type), "
+    "D + 1 <= fuel, and for index/index_mut positive extents whose product fits usize (the model's index uses unchecked arithmetic); trusted there: the translator, its reading "
+    "of arrays/Vec (Generated/VecPrelude.lean, ArrPrelude.lean) and of a `&mut` place as its current value; NOT covered by the second tie (differential tie only): read, iterators, write, Debug, Clone")
+MANIFEST["technique"] += " + source-to-Lean translation of rlib/tensor/src/lib.rs (constructors, get_index, dim, Index/IndexMut, ==) regenerated and proved equal to the model on every run"
+
+
+def extract(repo):
+    """Translate <repo>/rlib/tensor/src/lib.rs into Generated/TensorSrc.lean (written only when its text changes).  A construct outside the
+    translator's subset makes the second tie unavailable; the generated file then has no definitions, so the src_* theorems stop
+    compiling as well (never a stale file left in place)."""
+    import os
+    import sys
+    verif = os.path.dirname(os.path.dirname(os.path.abspath(__file__)))
+    tools = os.path.join(verif, "tools")
+    if tools not in sys.path:
+        sys.path.insert(0, tools)
+    import rs2lean_typed
+    rel = "rlib/tensor/src/lib.rs"
+    out = os.path.join(verif, "lean", "RlibModel", "Generated", "TensorSrc.lean")
+    info, problems = rs2lean_typed.run(os.path.join(repo, rel), out, "Rlib.TensorSrc", rel, ID, "Tensor", TRANSLATED)
+    params = {"translated_from": rel, "translated_functions": info.get("functions", []), "translated_loops": info.get("loops", []),
+              "not_translated": NOT_TRANSLATED,
+              "generated_file": "lean/RlibModel/Generated/TensorSrc.lean", "generated_file_rewritten": info.get("rewritten", False)}
+    return params, problems
+
+
+def extra(ctx):
+    """Plain-words verdict on the second tie when the translation succeeded but the src_* module did not build (the generic check
+    names the failing declarations).  Decided from the status the generic check recorded for this run - not from file times: after a
+    run with a broken proof, restoring the generated text does not make lake touch the (still valid) .olean, so a time comparison
+    (rs2lean.tie_findings) reports a stale file although everything builds."""
+    import rs2lean
+    ok = bool(ctx["params"].get("translated_functions"))
+    status = ctx["coverage"].get("second_tie", {}).get("status")
+    if ok and status == "broken":
+        return [{"class": "broken", "kind": "proof", "nosearch": False,
+                 "what": rs2lean.PROOF.format(src="rlib/tensor/src/lib.rs", lemmas="lean/RlibModel/Lemmas/TensorSrc.lean")}]
+    return []
